@@ -80,6 +80,12 @@ def _worker_batch(args):
     name, verif_seed, indices, tier, wall_cap = args
     faulthandler.enable()
     faulthandler.dump_traceback_later(wall_cap, exit=True)
+    import warnings
+
+    import numpy as np
+
+    warnings.filterwarnings("ignore")
+    np.seterr(all="ignore")
     mod = load_check(name)
     out = dict(
         n=0, nontrivial=0, sigs=set(), counters={}, vtime=0.0, violations=[], samples=[],
@@ -400,7 +406,7 @@ def main_check(name: str, tier: str, verif_seed: int, runs=None, minutes=None, p
             f"distinct={len(agg['sigs'])} wall={wall:.1f}s exit={exit_code}"
         )
         cs = agg["counters"]
-        print("  counters: " + ", ".join(f"{k}={cs[k]}" for k in sorted(cs)))
+        print("  counters: " + ", ".join(f"{k}={cs[k]}" for k in sorted(cs) if not k.startswith("op_")))
     return exit_code
 
 
